@@ -69,6 +69,7 @@ type seqState struct{ tx, consec int }
 type sideState struct {
 	dataN, ackN int
 	zero        bool
+	everZero    bool
 }
 
 type fateStats struct {
@@ -151,6 +152,7 @@ func (f *fate) decide(d *simnet.Datagram) []simnet.Delivery {
 	if m.Proto >= 6 && m.Proto <= 11 {
 		if m.WindowSize == 0 {
 			ss.zero = true
+			ss.everZero = true
 			f.st.win0++
 		} else if ss.zero {
 			ss.zero = false
@@ -260,4 +262,12 @@ func (f *fate) decide(d *simnet.Datagram) []simnet.Delivery {
 		return []simnet.Delivery{dl, {Delay: time.Duration(f.rng.Intn(f.sc.ExtraMs*1000+1)) * time.Microsecond}}
 	}
 	return []simnet.Delivery{dl}
+}
+
+// sawZero: the endpoint `side` of session sid has advertised receive window 0 at least once.
+func (f *fate) sawZero(sid uint32, side int) bool {
+	f.mu.Lock()
+	defer f.mu.Unlock()
+	ss := f.ss[sideKey{sid, side}]
+	return ss != nil && ss.everZero
 }
